@@ -7,7 +7,7 @@ PROFILE = gen.Profile(
     max_states=5, extra_trans=(1, 7), p_multi_event=0.45, p_internal=0.25,
     p_group=dict(validators=0.4, cond=0.45, unless=0.3, before=0.5, on=0.5, after=0.5, enter=0.5, exit=0.5),
     max_per_group=3, p_conv=0.35, p_nested=0.2, p_raise=0.1, p_validator_raise=0.1, p_unknown_event=0.05,
-    n_ops=(3, 10), p_rtc_off=0.2, p_allow=0.3,
+    n_ops=(3, 10), p_rtc_off=0.2, p_allow=0.3, p_fresh=0.08,
 )
 PROFILE_ASYNC = gen.Profile(**{**PROFILE.__dict__, "p_coro": 0.5, "drivers": ("facade", "loop"), "p_rtc_off": 0.0})
 
@@ -40,7 +40,9 @@ def run(ctx):
     # names offered by several providers, listeners that provide *named* callbacks attached late (C12's generator)
     from props.c12 import mutate as providers_and_late
     cov_a = dict(ctx.coverage)
-    engine_check(ctx, PROFILE, 250, 5000, nontrivial, monitor=c02_monitor, tag="C02l", mutate=providers_and_late)
+    # (no second instance in mid-history here: which late listeners it would get is not the library's choice)
+    engine_check(ctx, gen.Profile(**{**PROFILE.__dict__, "p_fresh": 0.0}), 250, 5000, nontrivial, monitor=c02_monitor,
+                 tag="C02l", mutate=providers_and_late)
     for k in ("evaluations", "distinct_nontrivial", "traces_validated_against_impl", "disagreements", "monitor_failures"):
         ctx.coverage[k] = ctx.coverage.get(k, 0) + cov_a.get(k, 0)
     ctx.coverage["distribution_late_named"] = ctx.coverage.get("distribution")
